@@ -233,6 +233,15 @@ def check_activation(w, sim, p, fail):
         return True
     if p.tx:
         sim.cmd("tick 12")            # inhibit time started by an event-timer transmission during an earlier probe
+        if p.typ >= 254:
+            # an event-driven TPDO is not driven by SYNC, whatever its type was earlier
+            got = []
+            for k in range(3):
+                evs = sim.rx(0x80, b"")
+                got += [(c, d) for (t, c, dlc, d, f) in S.txs(evs) if c == (p.cob & 0x7FF)]
+            if got:
+                return fail("behaviour/event-tpdo-on-sync", "TPDO%d (stored type %d, %s) sent %d frame(s) on 3 received SYNCs" % (
+                    p.num, p.typ, "active" if active else "inactive", len(got)))
         evs = sim.cmd("trigpdo %d" % p.num)
         got = [(cid, d) for (t, cid, dlc, d, f) in S.txs(evs) if cid == (p.cob & 0x7FF)]
         if not got and p.inhibit > 0:
@@ -313,11 +322,31 @@ def run_sequence(res, exe, rng, first, npdo, forced=None):
                 burst = [(p.comm(), 1, 4, p.cob | 0x80000000, "cob"), (p.comm(), 2, 1, 254, "type"), (p.mapi(), 0, 1, 0, "count"), (p.mapi(), 1, 4, good, "entry"),
                          (p.mapi(), 0, 1, 1, "count"), (p.comm(), 5, 2, 5, "event"), (p.comm(), 1, 4, p.cob & ~0x80000000, "cob"), ("tick", 12),
                          (p.comm(), 1, 4, p.cob | 0x80000000, "cob"), (p.comm(), 2, 1, rng.choice([1, 2]), "type"), (p.comm(), 1, 4, p.cob & ~0x80000000, "cob")]
+            elif x < 0.12 and p.tx:
+                # a TPDO that was synchronous during one OPERATIONAL phase is re-typed to event-driven outside OPERATIONAL (or the other way round)
+                good = gen.maplink(0x2300, 3, 8)
+                t1, t2 = rng.choice([(1, 255), (2, 254), (255, 1), (240, 255)])
+                burst = [("nmt", 128), (p.comm(), 1, 4, p.cob | 0x80000000, "cob"), (p.comm(), 2, 1, t1, "type"), (p.mapi(), 0, 1, 0, "count"), (p.mapi(), 1, 4, good, "entry"),
+                         (p.mapi(), 0, 1, 1, "count"), (p.comm(), 1, 4, p.cob & ~0x80000000, "cob"), ("nmt", 1), ("nmt", rng.choice([128, 128, 2])),
+                         ("nmt", 128), (p.comm(), 1, 4, p.cob | 0x80000000, "cob"), (p.comm(), 2, 1, t2, "type")]
+                burst += [(p.comm(), 1, 4, p.cob & ~0x80000000, "cob"), ("nmt", 1)] if rng.random() < 0.5 else [("nmt", 1), (p.comm(), 1, 4, p.cob & ~0x80000000, "cob")]
             if not burst:
                 burst = [gen_write(rng, w, p)]
-            for (idx, sub, width, value, kind) in [b if len(b) == 5 else (b[0], b[1], 0, 0, "tick") for b in burst]:
+            for (idx, sub, width, value, kind) in [b if len(b) == 5 else (b[0], b[1], 0, 0, b[0]) for b in burst]:
               if kind == "tick":
                 sim.cmd("tick %d" % sub)
+                continue
+              if kind == "nmt":
+                script.append("nmt %d" % sub)
+                sim.rx(0, bytes([sub, nid]))
+                was = w.mode
+                w.mode = OP if sub == 1 else PREOP
+                if sub == 2:
+                    sim.rx(0, bytes([128, nid]))        # STOPPED, then back to PRE-OPERATIONAL (SDO needs it)
+                if w.mode == OP and was != OP:
+                    for q in w.pdos:
+                        if not check_activation(w, sim, q, fail):
+                            return
                 continue
               if True:
                 exp = expect(w, p, idx, sub, value, kind)
